@@ -418,6 +418,24 @@ pub mod verif_taps {
         )
     }
 
+    /// tap on the private rate-limited state notification of the monitor loop
+    pub fn write_state_event(
+        state_key: &str,
+        state_value: &str,
+        message: String,
+        service_state: &mut ServiceState,
+    ) {
+        super::write_state_event(
+            state_key,
+            state_value,
+            message,
+            "verif_taps",
+            "service_main",
+            &logger::get_logger_key(),
+            service_state,
+        )
+    }
+
     pub fn report_proxy_agent_service_status(
         output: Result<Output, Error>,
         status_folder: PathBuf,
